@@ -289,6 +289,35 @@ def _sum_lazy(ex, node, f):
 lazy["builtins.sum"] = _sum_lazy
 
 
+def _sorted_lazy(ex, node, f):
+    """sorted(xs, key=len) for a list of sets: some rearrangement of xs (same elements, same
+    length) in which set sizes never decrease (TB-py)"""
+    if len(node.args) != 1 or len(node.keywords) != 1 or node.keywords[0].arg != "key":
+        raise Unsupported("sorted() of this shape")
+    kf = node.keywords[0].value
+    if not (isinstance(kf, ast.Name) and kf.id == "len" and "len" not in ex.st.env):
+        raise Unsupported("sorted() with a key other than len")
+    xs = ex.eval(node.args[0])
+    if not (isinstance(xs, VList) and isinstance(xs.et, TSet)):
+        raise Unsupported("sorted(key=len) of something other than a list of sets")
+    LT = xs.LT
+    es = xs.et.sort()
+    mem, _w = L.mem_theory(es)
+    card = L.enum_theory(xs.et.et.sort())[2]
+    r = ex.st.fresh_const("sorted", LT.sort)
+    i, j = z3.Ints("_srt_i _srt_j")
+    ex.st.assume(LT.len(r) == LT.len(xs.t))
+    ex.st.assume(L.Forall([i], [LT.at(r, i)], z3.Implies(z3.And(0 <= i, i < LT.len(r)), mem(xs.t, LT.at(r, i))), "sorted.elements.from.input"))
+    ex.st.assume(L.Forall([i], [LT.at(xs.t, i)], z3.Implies(z3.And(0 <= i, i < LT.len(r)), mem(r, LT.at(xs.t, i))), "sorted.elements.kept"))
+    ex.st.assume(L.Forall([i, j], [LT.at(r, i), LT.at(r, j)], z3.Implies(z3.And(0 <= i, i <= j, j < LT.len(r)), card(LT.at(r, i)) <= card(LT.at(r, j))), "sorted.by.len"))
+    ex.trusted = getattr(ex, "trusted", set())
+    ex.trusted.add("TB-py")
+    return VList(r, xs.et)
+
+
+lazy["builtins.sorted"] = _sorted_lazy
+
+
 @fn("builtins.float", tb="TB-py")
 def _float(ex, args, kwargs, node):
     return VFloat()
@@ -588,6 +617,7 @@ def _symbol(ex, args, kwargs, node):
         raise Unsupported("Symbol(name) with non-string")
     if len(args) == 2:
         if isinstance(args[1], VOpaque) and args[1].what == "pysmt.INT":
+            ex.trusted = getattr(ex, "trusted", set())
             ex.trusted.add("TB-ifml")
             return VITerm(IT.i_sym(args[0].t))
         if isinstance(args[1], VOpaque) and args[1].what == "pysmt.BOOL":
@@ -900,6 +930,28 @@ def _wcnf_append(ex, s, args, kwargs, node):
     o = ex.st.obj(s.ref)
     ex.st.update(s.ref, A=L.inter(o["A"], Dc(c.t)))
     return VNone()
+
+
+# RC2 (TB-sat): the MaxSAT solver as the set of worlds its hard clauses admit; compute() returns
+# None iff that set is empty, otherwise a model denoting one of its worlds
+wof = z3.Function("world_of_model", Opq, L.World)
+
+
+@fn("pysat.examples.rc2.RC2", tb="TB-sat")
+def _rc2(ex, args, kwargs, node):
+    (w,) = args
+    o = ex.st.obj(w.ref)
+    ref = ex.st.alloc({"kind": "solver", "A": o["A"], "pushed": [], "base": None, "rc2": True})
+    return VRef(ref, TSolverT)
+
+
+@meth("Solver", "compute", tb="TB-sat")
+def _rc2_compute(ex, s, args, kwargs, node):
+    o = ex.st.obj(s.ref)
+    m = VOpaque("rc2 model", ex.st.fresh_const("model", Opq))
+    empty = L.isempty(o["A"])
+    ex.st.assume(z3.Implies(z3.Not(empty), z3.Select(o["A"], wof(m.t))))
+    return VOptional(empty, m, TOpaque)
 
 
 fn("inference.tseitin_transformation:TseitinTransformation", tb="TB-py")(_mk_instance("TseitinTransformation"))
